@@ -168,7 +168,7 @@ CHECKS = {
              "OpenedSubsetPending ... for sequential, 2- and 3-thread configurations. Generated behaviours and a seeded "
              "3-thread driver run on the real NewCircuitMap over bolt behind the gated/crashing/failing kvdb wrapper, threads "
              "released phase by phase; returned CircuitFwdActions, errors, memory maps, both buckets and lookups after every "
-             "phase and restart are validated by TLC.",
+             "phase and restart are validated by TLC. SwitchResponse: the response path of the real Switch for N HTLCs of one incoming channel (durable: circuits, resolution-message store, outgoing package entries and their acks, channel close status; volatile: closing set, live index, unclaimed queue, mailbox, pendingSettleFails; actions OffChain, OutFwd, Resolve, Handle/Deliver = closeCircuit arbitration, AckTick, Replay, AddLink/RemoveLink, InCommit, CloseChan/FullyClose, Restart = cleanClosedChannels + reforwardResponses + reforwardResolutions; AtMostOneResponse, OneQueued, NotLost) replayed on one real started Switch over bolt.",
         note="kvdb.Batch coalescing disabled by the wrapper; switch-level code (closeCircuit, teardownCircuit) is left to C08; "
              "API-level anomalies outside the switch's call discipline (H9, H10, H11) are explored in the thorough tier and "
              "reported as KNOWN-FINDING",
@@ -262,7 +262,7 @@ CHECKS = {
              "racing with blocks; TLC checks ConfTimely/ConfTruthful/ConfSound (and the spend analogues), "
              "NegOnlyOnDisconnect, DoneOnlyDeep, ConfHintSafe/SpendHintSafe, NoPanic over all histories within bounds. "
              "Generated behaviours, two directed schedules and a free-running driver run on the real TxNotifier with the real "
-             "height-hint cache on bolt; every drained notification and both hints after every call are validated by TLC.",
+             "height-hint cache on bolt; every drained notification and both hints after every call are validated by TLC. Part 'catchup' (CatchUp EXTENDS TxNotifier): the dispatcher layer that feeds the notifier - real HandleMissedBlocks / RewindChain / GetClientMissedBlocks over a scripted ChainConn, backend outages of 140 and 150 blocks around ReorgSafetyLimit (CaughtUp, RewindWithinSafety, FollowsActiveConf/Spend/Hints); part 'kinds': every request kind registered side by side; ProcessRelevantSpendTx (RelevantSpend, RelevantSpendAhead).",
         note="clients empty their channels between calls; historical answers are the truth at delivery (O1 excluded); backend "
              "drivers out of scope; F10 repaired (6d8df39): generated behaviours now include orphaned rescans",
         technique="TLA+ spec + TLC model checking + TLC trace validation of generated, directed and free-running executions",
